@@ -106,6 +106,14 @@ func (f *Func) Type() types.Type {
 		f.Typ = types.NewPointer(f.Sig)
 		f.Typ.AddrSpace = f.AddrSpace
 	}
+	// The address space may have been assigned after the type was cached (e.g.
+	// after NewFunc); the cache is left as is, so that Type never writes to a
+	// function whose type is already present.
+	if f.Typ.AddrSpace != f.AddrSpace {
+		typ := types.NewPointer(f.Typ.ElemType)
+		typ.AddrSpace = f.AddrSpace
+		return typ
+	}
 	return f.Typ
 }
 
